@@ -649,6 +649,8 @@ def run(tier):
     ske_hash_by_version(chk)
     key_export_seed(chk)
     explicit_nonce_from_record(chk)
+    from .c02 import cbc_padding_length_range
+    cbc_padding_length_range(chk)
     from .. import engio, oblig as _ob
     _ob.run_obligations(chk, engio.progress_obligations())
     engio.ready_state(chk)
